@@ -86,7 +86,10 @@ def run(lines, out, args):
                     setattr(mod, M.__name__, M)
                 else:
                     M = type
-                C = M("C%s" % f[1], tuple(classes[b] for b in a) or (object,), {"__module__": mod.__name__})
+                # every fifth root class is a subclass of types.ModuleType (a lazy-module / namespace class): its instances carry
+                # declarations like any other object's, keyed on their OWN class
+                root = (types.ModuleType,) if (not a and int(f[1]) % 5 == 0 and M is type) else (object,)
+                C = M("C%s" % f[1], tuple(classes[b] for b in a) or root, {"__module__": mod.__name__})
                 C.__qualname__ = C.__name__
                 setattr(mod, C.__name__, C)
                 classes[int(f[1])] = C
@@ -118,7 +121,7 @@ def run(lines, out, args):
                 watchers.append(wt)
                 implementedBy(classes[int(f[1])]).subscribe(wt)
             elif f[0] == "inst":
-                objs[int(f[1])] = classes[a[0]]()
+                objs[int(f[1])] = classes[a[0]]("zi_lazy_module") if issubclass(classes[a[0]], types.ModuleType) else classes[a[0]]()
             elif f[0] == "add":
                 if len(f) > 2:
                     implementer(*[ifs[x] for x in a])(classes[int(f[1])])
@@ -167,6 +170,11 @@ def run(lines, out, args):
                         if red[0] is Provides else "other %r" % (red[0],)
             elif f[0] == "pk":
                 kind, k = f[1], int(f[2]) if len(f) > 2 else 0
+                # lower case: the class's declarations changed since the instance declaration was made -- the round trip must give
+                # the same interfaces, in the same order; it need not be the very same object (the weakly cached declaration is
+                # re-validated against the class when it is asked for again)
+                quiet = kind.isupper()
+                kind = kind.upper()
                 if kind == "I":
                     x = ifs[k]
                 elif kind == "M":
@@ -175,6 +183,9 @@ def run(lines, out, args):
                     x = objs[k].__dict__.get("__provides__")
                 elif kind == "C":
                     x = classes[k].__dict__.get("__provides__")
+                elif kind == "O" and isinstance(objs[k], types.ModuleType):
+                    kind = "P"                       # (module objects themselves are not picklable: their declaration is)
+                    x = objs[k].__dict__.get("__provides__")
                 elif kind == "O":
                     x = objs[k]
                 elif kind == "B":
@@ -197,9 +208,9 @@ def run(lines, out, args):
                             if flat(providedBy(y)) != flat(providedBy(x)):
                                 problems.append("p%d:object-provides(%s)!=(%s)" % (proto, ",".join(flat(providedBy(y))), ",".join(flat(providedBy(x)))))
                         else:
-                            if flat(y) != flat(x) or [iid(i) for i in y] != [iid(i) for i in x]:
+                            if flat(y) != flat(x) or (quiet and [iid(i) for i in y] != [iid(i) for i in x]):
                                 problems.append("p%d:provides(%s)!=(%s)" % (proto, ",".join(flat(y)), ",".join(flat(x))))
-                            if not (y == x and hash(y) == hash(x)):
+                            if quiet and not (y == x and hash(y) == hash(x)):
                                 problems.append("p%d:not-equal" % proto)
                     y = None
                     got = "ok" if not problems else "FAIL " + " ".join(problems)
